@@ -2,7 +2,6 @@ package main
 
 import (
 	"bufio"
-	"bytes"
 	"runtime/debug"
 	"syscall"
 	"encoding/json"
@@ -30,6 +29,7 @@ type sinkT struct {
 	mu     sync.Mutex
 	evs    []wev
 	failFn func(w int, attempt int) bool // fault injection: should this Write attempt fail?
+	failP  func(w int, p []byte) bool    // fault injection deciding on the payload as well
 	nWrite int
 }
 
@@ -57,7 +57,7 @@ func (s *sinkT) write(w int, p []byte) (int, error) {
 	s.mu.Lock()
 	defer s.mu.Unlock()
 	s.nWrite++
-	fail := s.failFn != nil && s.failFn(w, s.nWrite)
+	fail := (s.failFn != nil && s.failFn(w, s.nWrite)) || (s.failP != nil && s.failP(w, p))
 	s.evs = append(s.evs, wev{W: w, K: "w", Fail: fail, payload: append([]byte(nil), p...)})
 	if fail {
 		return 0, errInjected
@@ -147,13 +147,13 @@ func redirectDefaults() {
 
 // ---- real stdout / stderr of the process
 
-// captureStdio re-points file descriptors 1 and 2 of this process at two append-only files in
-// the working directory, so that whatever the library writes to the real stdout/stderr (the
-// package default destinations) is observed.  The original stderr is kept for diagnostics and
-// crash output.
+// captureStdio re-points file descriptors 1 and 2 of this process at two SOCK_SEQPACKET socket
+// pairs, so that whatever the library writes to the real stdout/stderr (the package default
+// destinations) is observed with its write boundaries: one packet per write(2) call.  The
+// original stderr is kept for diagnostics and crash output.
 type stdioCapture struct {
-	files [2]*os.File // readers
-	off   [2]int64
+	rd  [2]int // reading ends
+	buf []byte
 }
 
 var stdio *stdioCapture
@@ -170,37 +170,42 @@ func captureStdio() {
 	diag = os.NewFile(uintptr(saved), "diag")
 	_ = debug.SetCrashOutput(diag, debug.CrashOptions{})
 	c := &stdioCapture{}
-	for i, name := range []string{"captured.stdout", "captured.stderr"} {
-		f, err := os.OpenFile(name, os.O_CREATE|os.O_TRUNC|os.O_WRONLY|os.O_APPEND, 0o644)
+	for i := 0; i < 2; i++ {
+		fds, err := syscall.Socketpair(syscall.AF_UNIX, syscall.SOCK_SEQPACKET, 0)
 		if err != nil {
 			panic(err)
 		}
-		if err := syscall.Dup2(int(f.Fd()), i+1); err != nil {
+		_ = syscall.SetsockoptInt(fds[0], syscall.SOL_SOCKET, syscall.SO_SNDBUF, 8<<20)
+		_ = syscall.SetsockoptInt(fds[1], syscall.SOL_SOCKET, syscall.SO_RCVBUF, 8<<20)
+		if err := syscall.Dup2(fds[0], i+1); err != nil {
 			panic(err)
 		}
-		f.Close()
-		rd, err := os.Open(name)
-		if err != nil {
+		syscall.Close(fds[0])
+		if err := syscall.SetNonblock(fds[1], true); err != nil {
 			panic(err)
 		}
-		c.files[i] = rd
+		c.rd[i] = fds[1]
 	}
 	stdio = c
 }
 
-// drain returns what was written to stdout (i=0) / stderr (i=1) since the last call.
-func (c *stdioCapture) drain(i int) []byte {
-	st, err := c.files[i].Stat()
-	if err != nil || st.Size() <= c.off[i] {
-		return nil
+// drain returns the packets (= write calls) that reached stdout (i=0) / stderr (i=1) since the last call.
+func (c *stdioCapture) drain(i int) [][]byte {
+	var res [][]byte
+	if c.buf == nil {
+		c.buf = make([]byte, 1<<20)
 	}
-	buf := make([]byte, st.Size()-c.off[i])
-	n, _ := c.files[i].ReadAt(buf, c.off[i])
-	c.off[i] += int64(n)
-	return buf[:n]
+	buf := c.buf
+	for {
+		n, err := syscall.Read(c.rd[i], buf)
+		if err != nil || n <= 0 {
+			return res
+		}
+		res = append(res, append([]byte(nil), buf[:n]...))
+	}
 }
 
-// takeAll returns the recorder events plus one "w" event per record line that reached the real
+// takeAll returns the recorder events plus one "w" event per write that reached the real
 // stdout (-1) / stderr (-2) since the last call (order across the two kinds is not preserved).
 func takeAll() []wev {
 	evs := sink.take()
@@ -208,14 +213,8 @@ func takeAll() []wev {
 		return evs
 	}
 	for i, id := range []int{STDOUT, STDERR} {
-		data := stdio.drain(i)
-		for len(data) > 0 {
-			j := bytes.IndexByte(data, '\n')
-			if j < 0 {
-				j = len(data) - 1
-			}
-			evs = append(evs, wev{W: id, K: "w", payload: data[:j+1]})
-			data = data[j+1:]
+		for _, pkt := range stdio.drain(i) {
+			evs = append(evs, wev{W: id, K: "w", payload: pkt})
 		}
 	}
 	return evs
